@@ -29,6 +29,8 @@ def configs(tier):
             out.append(dict(kind=kind, J0=0, d=(2 if kind == "statio" else 1), ncomp=2, x64=True))
         # a generator that already refined (J0 = 1) is handed to a new solve(): init_rar runs again, then the next step
         out.append(dict(kind=kind, J0=1, d=(2 if kind == "statio" else 1), reinit=True, x64=True))
+    # a space-time dependent (heterogeneous) equation parameter: candidates are ranked by the residual the loss minimises
+    out.append(dict(kind="nonstatio", J0=0, d=1, hetero=True, x64=True))
     # a system of two ODEs: ranked by the sum over the equations of the squared residuals
     for J0 in (0, 1):
         out.append(dict(kind="ode", J0=J0, d=1, system=True, x64=True))
@@ -41,7 +43,7 @@ def run(cfg, R):
     ncomp = cfg.get("ncomp", 1)
     full = cfg.get("full", False)
     system = cfg.get("system", False)
-    data, loss, params, sizes = build(kind, 0, 1, d, ncomp=ncomp, time_first=cfg.get("time_first", False), system=system)
+    data, loss, params, sizes = build(kind, 0, 1, d, ncomp=ncomp, time_first=cfg.get("time_first", False), system=system, hetero=cfg.get("hetero", False))
     # a pre-state after J0 steps in which some store cannot hold another full set: the step must leave everything untouched
     full = full or any(n0 + (J0 + 1) * sel > ntot for ntot, n0, sel in sizes.values())
     data, t_, f_ = init_rar(data)
@@ -87,7 +89,7 @@ def run(cfg, R):
         shuf, batch = big.get_batch()
         return cands, res, post, shuf
 
-    name = f"{kind}/J0={J0}" + (f"/ncomp{ncomp}" if ncomp > 1 else "") + ("/store-full" if full else "") + ("/init_rar-again" if cfg.get("reinit") else "") + ("/system-2eq" if system else "")
+    name = f"{kind}/J0={J0}" + (f"/ncomp{ncomp}" if ncomp > 1 else "") + ("/store-full" if full else "") + ("/init_rar-again" if cfg.get("reinit") else "") + ("/system-2eq" if system else "") + ("/heterogeneous-kappa" if cfg.get("hetero") else "")
     # symbolic: the store contents, the PRNG key, the network and the equation parameters; everything else of the generator
     # (counters, probability masks, sizes, domain bounds -- arrays after a jitted step) is the concrete pre-state
     conc = lambda nm, l: nm.startswith("a_0_") and nm not in ("a_0_times", "a_0_omega", "a_0_key")
